@@ -609,9 +609,58 @@ func runCrashCase(r *rep.Reporter, cc crashCase) {
 			return
 		}
 	}
+	// phase 3: life goes on after the recovery. Every key (the one that was in flight included) is
+	// overwritten with a small object whose metadata is shorter than anything written before;
+	// the new writes are acknowledged writes like any other: readable at once and after one more kill.
+	second := map[string]objState{}
+	for i, k := range keys {
+		st := objState{present: true, body: []byte{byte('a' + i)}, ctype: "a/b", step: "z"}
+		resp, err := cl.do("PUT", p2.url(bucket, k), http.Header{"Content-Type": {st.ctype}, "X-Amz-Meta-Step": {st.step}}, bytes.NewReader(st.body), 1)
+		if err != nil || resp.Status != 200 {
+			fail("write-after-recovery-refused", fmt.Sprintf("PUT %s after the recovery: %v %v", k, resp, err), wit())
+			return
+		}
+		second[k] = st
+	}
+	checkSecond := func(p *srvProc, when string) bool {
+		for _, k := range keys {
+			g, err := cl.do("GET", p.url(bucket, k), nil, nil, 0)
+			st := second[k]
+			if err != nil || g.Status != 200 || !bytes.Equal(g.Body, st.body) || g.ETag() != drv.QuotedMD5(st.body) || g.Header.Get("Content-Type") != st.ctype || g.Header.Get("X-Amz-Meta-Step") != st.step {
+				anom := "write-after-recovery-lost"
+				if err == nil && g.Status == 200 && bytes.Equal(g.Body, st.body) {
+					anom = "metadata-of-write-after-recovery-lost"
+				}
+				fail(anom, fmt.Sprintf("key %s was overwritten after the recovery (1 byte, type %q, step %q); %s GET gives %v (type %q step %q) %v", k, st.ctype, st.step, when, g, hdrOf(g, "Content-Type"), hdrOf(g, "X-Amz-Meta-Step"), err), wit())
+				return false
+			}
+			r.Count("writes_after_recovery_audited", 1)
+		}
+		return true
+	}
+	if !checkSecond(p2, "immediately") {
+		return
+	}
+	p2.kill()
+	p3, err := startServer(cc.kind, dir, nil)
+	if err != nil {
+		fail("store-does-not-open", "after the second kill the server does not start: "+err.Error(), map[string]interface{}{"trace": trace})
+		return
+	}
+	defer p3.kill()
+	if !checkSecond(p3, "after one more kill and restart") {
+		return
+	}
 	if r.WantSample() && cc.mode == "hook" {
 		r.Sample(map[string]interface{}{"part": "kill", "case": cc.String(), "trace": trace[max(0, len(trace)-4):], "in_flight_key": inflightKey})
 	}
+}
+
+func hdrOf(r *drv.Resp, name string) string {
+	if r == nil {
+		return ""
+	}
+	return r.Header.Get(name)
 }
 
 func max(a, b int) int {
@@ -623,7 +672,7 @@ func max(a, b int) int {
 
 func runC15(c *Ctx) {
 	r := c.R
-	r.SetRule("(1) clean reopen: random C02-style histories with metadata on bolt, fs-dir and single-dir, closed and reopened at random points and at the end, full snapshot (buckets, listings, bodies, sizes, ETags, metadata headers, GET and HEAD) compared across the reopen and the history continued against S3Model; (2) kill: the real cmd/gofakes3 binary (built from /repo with -tags verif) on bolt, fs and directfs storage, a TCP client streams puts/overwrites/deletes over 5 keys, and the process is SIGKILLed (a) at the n-th hit of every crash hook on the put/delete path, (b) from outside after a PRNG-chosen number of acknowledged operations, (c) while half of an upload body has been sent; after restart ListBuckets and listings must work, every acknowledged write must be intact (body, ETag, size, listing entry, metadata) and the in-flight write wholly old or wholly new; distinct = distinct (backend, crash point, n) / kill positions / reopen histories")
+	r.SetRule("(1) clean reopen: random C02-style histories with metadata on bolt, fs-dir and single-dir, closed and reopened at random points and at the end, full snapshot (buckets, listings, bodies, sizes, ETags, metadata headers, GET and HEAD) compared across the reopen and the history continued against S3Model; (2) kill: the real cmd/gofakes3 binary (built from /repo with -tags verif) on bolt, fs and directfs storage, a TCP client streams puts/overwrites/deletes over 5 keys, and the process is SIGKILLed (a) at the n-th hit of every crash hook on the put/delete path, (b) from outside after a PRNG-chosen number of acknowledged operations, (c) while half of an upload body has been sent; after restart ListBuckets and listings must work, every acknowledged write must be intact (body, ETag, size, listing entry, metadata) and the in-flight write wholly old or wholly new; then every key is overwritten through the recovered server with a tiny object and short metadata, which must be readable at once and after one more kill; distinct = distinct (backend, crash point, n) / kill positions / reopen histories")
 	if c.Only == "" {
 		c15Reopen(r)
 	}
@@ -688,6 +737,7 @@ func runC15(c *Ctx) {
 	r.Require("crash_cases_with_kill", 50)
 	r.Require("in_flight_keys_audited", 30)
 	r.Require("acknowledged_keys_audited", 200)
+	r.Require("writes_after_recovery_audited", 200)
 	r.Assume("a killed process loses no page cache: power-loss durability (fsync ordering) is not examined",
 		"the kill tests drive the shipped command-line server over loopback TCP; acknowledged = the client has read the complete 2xx response")
 }
